@@ -23,12 +23,41 @@ R-ADDFIRST  every insertion into the table is non-overwriting and dominated, on 
 R-DELRESULT the unmount path returns success only on paths that erased the entry it found and a
             failure code (== -1 as documented) on every path where the lookup found nothing;
             mj_unmountVFS / mj_deleteFileVFS return values derived from that result only.
+            mj_deleteFileVFS: 0 is returned exactly on the paths on which an unmount attempt erased an entry
+            (decided on the call-frame interpretation of R-DELEXACT, so early returns, nested ifs, ?:, a local that holds
+            the first status and helper functions are all read alike).
+R-DELEXACT  the delete / unmount entry points are interpreted abstractly over call frames (wrappers, helpers and the
+            class methods are entered with their arguments classified as the caller's exact reduced name -- the name
+            parameter, a path object built from it by the one-argument constructor, its string accessors -- or as any
+            other key).  What is known about the exact name ("nothing", "absent", "present", "erased") is learnt from the
+            outcome of containment tests / find() of the exact key wherever they are written.  An erase from the mount
+            table under a key other than the exact name may happen only where the exact name is known to be absent: the
+            legacy (stripped, lower-cased) key is a fallback, never the first choice.  Necessary: with both names mounted,
+            any other order removes the wrong entry.
+R-DERIVED   derived-state coherence.  Every data member of the class other than the mount table is classified from data
+            and control flow (cxx2.MemberFlow): it is *filled from lookups* when a value stored into it derives from the
+            table (an iterator, the mapped object, a presence test, anything read through the found entry, the result of a
+            method that returns such a value) or is stored under the control of such a lookup (the "not found"
+            fall-through results: the default mount, nullptr, false); it is *read back* when a value read from it is
+            returned by a function that also works on the table (or fills the member), or a test of it against the
+            function's own argument decides such a return.  A member that is both is a cache of the table.  On every
+            path of every function that inserts into or erases from the table (constructors / destructor excepted) the
+            cache must be emptied (clear(), = {}, reset(), nullptr) -- before the change with nothing stored in between, or
+            after it; helpers are followed through summaries.  Removing one key is accepted only for an exact-key cache
+            (every entry is filled under the very key that all table lookups of the filling function use) and only for
+            that key; an insertion needs no invalidation only for an exact-key cache that stores nothing for names that
+            were not found.  With longest-prefix / scan / fall-through lookups both insertions and removals change the
+            answers of other names, so only emptying is accepted.  The census of all members (role, where filled, where
+            read back) is part of the evidence, and a fixed miniature class (built as IR, independent of /repo) with a
+            forgotten memo must be reported on every run, so the rule cannot pass by matching nothing.
 R-READBACK  the buffer provider's read callback (a lambda, or a named function / static member
             function of the file, stored in `read`) returns data()/size() of one member of the
             provider object reached from the resource; that member is written only in the
             provider's constructors (which copy exactly the n source bytes); VFS::Read and
             mju_readResource pass buffer pointer and result through unchanged.
 Not decided: behaviour over histories (which of several entries a prefix/legacy lookup picks),
+derived state kept outside the class (file-level statics, provider objects), caches that are re-validated on read or
+invalidated through a second member (reported as "cannot decide"), counters (++/--) as derived state,
 concurrent add/add races (the containment test and the emplace are in two lock scopes), the
 write path (mju_writeResource is not one of the property's operations; listed in the evidence).
 """
@@ -136,6 +165,23 @@ class World:
             raise AnalysisError(f"{VFSCLS}: no string-keyed table member found")
         mx = [fid for fid, fd in self.vfs.fields.items() if cxx2.strip_cvref(fd.get("t")) == "std::mutex"]
         self.mutex = mx[0] if len(mx) == 1 else None
+        # the mount table by role: the string-keyed table(s) the status-returning add path inserts into and the delete
+        # path erases from.  Another string-keyed member (a memo of lookups, say) is not the table R-KEYNORM / R-ADDFIRST /
+        # R-DELRESULT speak about; it is classified and checked by R-DERIVED.
+        self.string_tables = list(self.tables)
+        ins, era = set(), set()
+        for fn in self.fns:
+            if fn.kind != "method" or fn.cls is not self.vfs or "Status" not in (fn.node.get("t") or "").split("(")[0]:
+                continue
+            for x in cxx2.walk(fn.node):
+                ta = table_access(self, x)
+                if ta and ta[1] in INSERT_OPS + OVERWRITE_OPS and ta[1] != "at":
+                    ins.add(ta[0])
+                if ta and ta[1] in ("erase", "extract"):
+                    era.add(ta[0])
+        primary = (ins & era) or ins
+        if primary:
+            self.tables = [t for t in self.string_tables if t in primary]
 
     def callee(self, x):
         if x is None:
@@ -1155,54 +1201,7 @@ def check_delete(res, W, consts, doc):
                 res.bad("R-DELRESULT", construct, TU, w.node.get("line"), "the status of VFS::Unmount is never returned")
         else:
             res.ok("R-DELRESULT", construct, {"line": calls[0].get("line")})
-    # mj_deleteFileVFS: every return is (a) a call of the unmount wrapper, (b) kSuccess on the branch where such a call
-    # compared equal to 0 / kSuccess, or (c) a failure constant before any unmount call (argument check)
-    d = W.free["mj_deleteFileVFS"]
-    succ_id = consts["kSuccess"][0]
-
-    class Del(paths.Rule):
-        def initial(self, f):
-            return (False, None)      # (unmount attempted, last comparison says success?)
-
-        def call(self, st, node, name, ctx):
-            if W.callee(node) is w:
-                return (True, None)
-            return st
-
-        def branch(self, st, cond, taken, ctx):
-            s, neg = cxx2.cond_core(cond)
-            if neg:
-                taken = not taken
-            if s is not None and s.get("k") == "BinaryOperator" and s.get("op") in ("==", "!="):
-                a, b = (cxx2.skip(x) for x in cir.kids(s))
-                for x, y in ((a, b), (b, a)):
-                    if W.callee(x) is w and (cxx2.is_zero_literal(y) or
-                                              (y.get("k") == "DeclRefExpr" and (y.get("ref") or {}).get("id") == succ_id)):
-                        return (True, (s.get("op") == "==") == taken)
-            elif s is not None and W.callee(s) is w:
-                return (True, not taken)
-            return st
-
-        def ret(self, st, node, ctx):
-            att, ok = st
-            c = [y for y in cir.kids(node) if y is not None]
-            e = cxx2.skip(c[0]) if c else None
-            if e is not None and W.callee(e) is w:
-                return
-            rid = (e.get("ref") or {}).get("id") if e is not None and e.get("k") == "DeclRefExpr" else None
-            is_succ = rid == succ_id or cxx2.is_zero_literal(e)
-            if is_succ and ok is not True:
-                ctx.report(node, "success is returned although no unmount call on this path reported success", key="succ")
-            if not is_succ and att:
-                ctx.report(node, f"`{etext(e)}` is returned after an unmount attempt instead of that attempt's result",
-                           key="fail")
-    c3 = cxx2.explore(Del(), TU, d.node)
-    construct = "mj_deleteFileVFS:result-derived-from-unmount"
-    if c3.reports:
-        rp = c3.reports[0]
-        res.bad("R-DELRESULT", construct, rp["file"], rp["line"], rp["msg"])
-    else:
-        res.ok("R-DELRESULT", construct, {"returns": len(returns_of(d.node))})
+    # mj_deleteFileVFS:result-derived-from-unmount is decided by check_delete_exact (same abstract interpretation)
 
 
 # ------------------------------------------------------------------------------------- read path
@@ -1485,6 +1484,1084 @@ def check_read(res, W):
                 "mju_readResource does not return VFS::Read(resource, buffer) unchanged")
 
 
+# ------------------------------------------------------------------------------------- derived state (R-DERIVED)
+
+FILL_OPS = ("emplace", "insert", "insert_or_assign", "try_emplace", "emplace_hint", "push_back", "emplace_back",
+            "push_front", "emplace_front", "push", "assign", "merge", "append", "store")
+FULL_INV_OPS = ("clear",)
+KEYED_INV_OPS = ("erase", "extract")
+T_INSERT_OPS = INSERT_OPS + ("insert_or_assign", "[]", "emplace_hint")
+KEYED_CONTAINERS = MAPS + ("std::set", "std::unordered_set", "std::multimap", "std::unordered_multimap")
+
+
+def is_empty_value(e):
+    """The expression is the empty / null value of its type (`{}`, `T()`, nullptr, 0, false, std::nullopt)."""
+    e = cxx2.skip(e)
+    if e is None:
+        return True
+    k = e.get("k")
+    if k in ("CXXNullPtrLiteralExpr", "GNUNullExpr", "CXXScalarValueInitExpr", "ImplicitValueInitExpr"):
+        return True
+    if k == "IntegerLiteral":
+        return str(e.get("v")) == "0"
+    if k == "CXXBoolLiteralExpr":
+        return not e.get("v")
+    if k in ("InitListExpr", "CXXConstructExpr", "CXXTemporaryObjectExpr"):
+        return not [a for a in cxx2.real_args(e)]
+    if k == "DeclRefExpr":
+        return (e.get("ref") or {}).get("n") == "nullopt"
+    return False
+
+
+class _Site:
+    def __init__(self, idx, node, owner, fid, op, kind, key):
+        self.idx, self.node, self.owner, self.fid, self.op, self.kind, self.key = idx, node, owner, fid, op, kind, key
+
+
+class _Member:
+    def __init__(self, fid, name, typ):
+        self.fid, self.name, self.type = fid, name, typ
+        self.role = "independent"
+        self.fills = []          # (fn, node, how) -- stores that depend on lookups of the table
+        self.other_stores = []   # (fn, node) -- stores that do not
+        self.consult = []        # (fn, how)
+        self.escapes = []        # (fn, node) -- the member is handed to code that is not followed
+        self.exact = False
+        self.positive_only = False
+        self.guards = set()
+        self.unchecked_reads = 0
+
+
+class Derived:
+    """Members of a class that cache lookups of its table, and whether every change of the table invalidates them.
+
+    Parametric in the class: `fields` {FieldDecl id: node}, `tables` (ids of the primary table members), `fns` (objects
+    with .node/.params/.qual/.kind/.access), `callee(call)` -> one of fns or None, `special(fn)` -> constructor/destructor.
+    See the module docstring (R-DERIVED) for what is demanded."""
+
+    def __init__(self, cname, fields, tables, fns, callee, special, tu=TU):
+        self.cname, self.fields, self.tables, self.callee, self.special, self.tu = cname, fields, set(tables), callee, special, tu
+        self.fns = [f for f in fns if cir.body(f.node) is not None]
+        self.fname = lambda fid: (fields.get(fid) or {}).get("n") or str(fid)
+        self.flowT = cxx2.MemberFlow(self.fns, self.tables, callee)
+        self.calls = {id(f): [] for f in self.fns}        # caller -> [(call node, callee)]
+        self.callers = {id(f): [] for f in self.fns}
+        for f in self.fns:
+            for x in cxx2.walk(f.node):
+                if x.get("k") in ("CallExpr", "CXXMemberCallExpr"):
+                    g = callee(x)
+                    if g is not None and id(g) in self.calls:
+                        self.calls[id(f)].append((x, g))
+                        self.callers[id(g)].append(f)
+        self.touchT = self._closure(lambda f: self._mentions_fields(f, self.tables))
+        self._scan_table_sites()
+        self._scan_member_events()
+        self.members = {}
+        for fid, fd in fields.items():
+            if fid in self.tables:
+                continue
+            self.members[fid] = self._classify(fid, fd)
+
+    # -- generic helpers
+    def _closure(self, base):
+        got = {id(f): bool(base(f)) for f in self.fns}
+        changed = True
+        while changed:
+            changed = False
+            for f in self.fns:
+                if not got[id(f)] and any(got[id(g)] for _, g in self.calls[id(f)]):
+                    got[id(f)] = True
+                    changed = True
+        return got
+
+    @staticmethod
+    def _mentions_fields(f, fids):
+        return any(x.get("k") == "MemberExpr" and x.get("mid") in fids for x in cxx2.walk(f.node))
+
+    def _field_op(self, x):
+        """(field id, operation, [argument expressions]) for `member.op(args)` / `member[k]` on a data member of *this."""
+        if x.get("k") == "CXXMemberCallExpr":
+            r = cxx2.receiver(x)
+            if r and r[0] is not None:
+                rf = cxx2.rooted_field(r[0])
+                if rf and rf[1] and rf[0] in self.fields:
+                    return rf[0], r[2], cxx2.real_args(x)[1:]
+        if x.get("k") == "CXXOperatorCallExpr" and cxx2.op_name(x) == "[]":
+            a = cxx2.op_args(x)
+            rf = cxx2.rooted_field(a[0]) if a else None
+            if rf and rf[1] and rf[0] in self.fields:
+                return rf[0], "[]", a[1:]
+        return None
+
+    def _iter_key(self, f, arg, fids):
+        """Key expression of the find() that initialised the iterator local `arg` (on one of the members fids), else None."""
+        a = cxx2.skip(arg)
+        if a is None or a.get("k") != "DeclRefExpr" or (a.get("ref") or {}).get("k") != "VarDecl":
+            return None
+        rid = a["ref"].get("id")
+        for x in cxx2.walk(f.node):
+            if x.get("k") == "VarDecl" and x.get("id") == rid:
+                init = [c for c in cir.kids(x) if c is not None]
+                e = cxx2.skip(init[-1]) if init else None
+                fo = self._field_op(e) if e is not None else None
+                if fo and fo[0] in fids and fo[1] == "find" and fo[2]:
+                    return fo[2][0]
+        return None
+
+    def _key_of(self, f, fid, op, args):
+        if not args or op not in KEYED_OPS + ("[]",):
+            return None
+        k = self._iter_key(f, args[0], {fid})
+        return keytext(f.node, k if k is not None else args[0])
+
+    # -- the table: where it changes
+    def _scan_table_sites(self):
+        self.sites, self.site_by_node = [], {}
+        for f in self.fns:
+            if self.special(f):
+                continue
+            for x in cxx2.walk(f.node):
+                fo = self._field_op(x)
+                if fo is None or fo[0] not in self.tables or fo[1] not in MUTATING_OPS:
+                    continue
+                kind = "insert" if fo[1] in T_INSERT_OPS else "erase"
+                s = _Site(len(self.sites), x, f, fo[0], fo[1], kind, self._key_of(f, fo[0], fo[1], fo[2]))
+                self.sites.append(s)
+                self.site_by_node[id(x)] = s
+        self.mut = self._closure(lambda f: any(s.owner is f for s in self.sites))
+
+    # -- the other members: how they are written
+    def _scan_member_events(self):
+        """ev[id(node)] = (field id, kind, key expr or None, stored expressions) for every write of a data member:
+        kind "inv" (back to the empty value), "invk" (one key removed), "fill" (something stored)."""
+        self.ev, self.ev_fn, self.escape = {}, {}, {}
+        for f in self.fns:
+            for x in cxx2.walk(f.node):
+                got = None
+                ap = cxx2.assignment_parts(x)
+                if ap is not None:
+                    rf = cxx2.rooted_field(ap[0])
+                    if rf and rf[0] in self.fields:
+                        if rf[1] and ap[2] == "=" and is_empty_value(ap[1]):
+                            got = (rf[0], "inv", None, [])
+                        else:
+                            t = cxx2.skip(ap[0])
+                            key = None
+                            if t is not None and t.get("k") == "CXXOperatorCallExpr" and cxx2.op_name(t) == "[]":
+                                key = cxx2.op_args(t)[1]
+                            got = (rf[0], "fill", key, [ap[1]])
+                else:
+                    fo = self._field_op(x)
+                    if fo is not None and fo[0] not in self.tables:
+                        fid, op, args = fo
+                        if op in FULL_INV_OPS or (op == "reset" and not args):
+                            got = (fid, "inv", None, [])
+                        elif op in KEYED_INV_OPS:
+                            got = (fid, "invk", args[0] if args else None, [])
+                        elif op in FILL_OPS or (op in ("reset", "swap") and args):
+                            keyed = cxx2.template_name((self.fields[fid].get("t") or "")) in KEYED_CONTAINERS
+                            got = (fid, "fill", args[0] if args and keyed else None, list(args))
+                if got is not None and got[0] not in self.tables:
+                    self.ev[id(x)] = got
+                    self.ev_fn.setdefault(got[0], {}).setdefault(id(f), []).append(x)
+                # the member itself handed over (argument, address): writes through that are not followed
+                if x.get("k") in ("CallExpr", "CXXMemberCallExpr", "CXXConstructExpr"):
+                    args = cir.kids(x)[1:] if x.get("k") != "CXXConstructExpr" else cir.kids(x)
+                    for a in args:
+                        b = cxx2.skip(a)
+                        if b is not None and b.get("k") == "UnaryOperator" and b.get("op") == "&":
+                            b = cxx2.skip(cir.kids(b)[0])
+                        rf = cxx2.rooted_field(b) if b is not None and b.get("k") == "MemberExpr" else None
+                        t = (a.get("t") or "")
+                        if rf and rf[1] and rf[0] in self.fields and rf[0] not in self.tables and \
+                                (a.get("k") != "ImplicitCastExpr" or a.get("ck") != "LValueToRValue") and \
+                                not t.startswith("const ") and g_is_unknown(self, x):
+                            self.escape.setdefault(rf[0], []).append((f, x))
+
+    # -- classification of one member
+    def _classify(self, fid, fd):
+        M = _Member(fid, fd.get("n"), fd.get("t") or "")
+        if "mutex" in M.type:
+            M.role = "lock"
+            return M
+        T = self.flowT
+        for f in self.fns:
+            for x in cxx2.walk(f.node):
+                e = self.ev.get(id(x))
+                if e is None or e[0] != fid or e[1] != "fill":
+                    continue
+                data = any(T.mentions(v, f) for v in e[3]) or (e[2] is not None and T.mentions(e[2], f))
+                ctl = T.controlled(f, x)
+                if data or ctl:
+                    M.fills.append((f, x, "value" if data else "control"))
+                else:
+                    M.other_stores.append((f, x))
+        M.escapes = self.escape.get(fid, [])
+        # consulted: a value read from the member is returned by a function that also works on the table (or fills the
+        # member from it), or a test of the member against the function's own argument decides such a return
+        pids = {id(f): {p.get("id") for p in f.params} for f in self.fns}
+
+        def keyed_cond(flow, cond, f):
+            if not flow.mentions(cond, f):
+                return False
+            ps = pids[id(f)]
+            for x in cxx2.walk(cond):
+                if x.get("k") != "DeclRefExpr":
+                    continue
+                r = x.get("ref") or {}
+                if r.get("id") in ps:
+                    return True
+                if r.get("k") == "VarDecl":
+                    for d in cxx2.walk(f.node):
+                        if d.get("k") == "VarDecl" and d.get("id") == r.get("id") and any(
+                                y.get("k") == "DeclRefExpr" and (y.get("ref") or {}).get("id") in ps for y in cxx2.walk(d)):
+                            return True
+            return False
+        FM = cxx2.MemberFlow(self.fns, {fid}, self.callee, cond_pred=keyed_cond)
+        fillers = self._closure(lambda f: any(g is f for g, _, _ in M.fills))
+        for g in self.fns:
+            if self.special(g) or not (self.touchT[id(g)] or fillers[id(g)]):
+                continue
+            how = None
+            for x in cxx2.walk(g.node, lambdas=False):
+                if x.get("k") != "ReturnStmt":
+                    continue
+                c = [y for y in cir.kids(x) if y is not None]
+                e = c[0] if c else None
+                ap = cxx2.assignment_parts(cxx2.skip(e)) if e is not None else None
+                if ap is not None and (cxx2.rooted_field(ap[0]) or (None,))[0] == fid:
+                    e = ap[1]              # `return member[k] = v;` hands out v, not what the member held
+                if e is not None and FM.mentions(e, g):
+                    how = "returned"
+                    if not self.flowT.controlled(g, x, local=True):
+                        M.unchecked_reads += 1     # handed out without any test of the table in between
+                    continue
+                if FM.controlled(g, x) and self.touchT[id(g)]:
+                    how = how or "decides-return"
+            if how:
+                M.consult.append((g, how))
+        if M.fills and M.consult:
+            M.role = "cache"
+            self._shape(M)
+        elif M.fills:
+            M.role = "derived-unread"
+        elif M.consult:
+            M.role = "read-not-derived"
+        return M
+
+    def _shape(self, M):
+        """exact: every entry is filled under the very key that all table lookups of the filling function use (so an
+        entry can only depend on that key of the table).  positive_only: every stored value is read through a found
+        entry (nothing is stored for a name that was not found)."""
+        keyed = cxx2.template_name(M.type) in KEYED_CONTAINERS
+        exact = keyed
+        context = False          # exactness fails only because of where the filling function is called from / what it calls
+        positive = True
+        for f, x, how in M.fills:
+            e = self.ev[id(x)]
+            if how != "value" or not any(self._entry_deref(v, f) for v in e[3]) or \
+                    any(y.get("k") == "ConditionalOperator" for v in e[3] for y in cxx2.walk(v)):
+                positive = False
+            if not exact:
+                continue
+            if e[2] is None:
+                exact = False
+                continue
+            kt = keytext(f.node, e[2])
+            if self.flowT.ctl_in[id(f)] or any(self.touchT[id(g)] for _, g in self.calls[id(f)]):
+                context = True
+            for y in cxx2.walk(f.node):
+                if y.get("k") == "CXXForRangeStmt" and any(
+                        z.get("k") == "MemberExpr" and z.get("mid") in self.tables
+                        for pre in cir.kids(y)[:-1] if pre is not None for z in cxx2.walk(pre)):
+                    exact = False
+                fo = self._field_op(y)
+                if fo and fo[0] in self.tables and fo[1] in KEYED_OPS + ("[]",):
+                    if not fo[2] or self._key_of(f, fo[0], fo[1], fo[2]) != kt:
+                        exact = False
+        if exact and context:
+            exact = None
+        M.exact, M.positive_only = exact, positive
+        for g, _ in M.consult:
+            for y in cxx2.walk(g.node):
+                if y.get("k") in ("IfStmt", "WhileStmt", "ForStmt", "DoStmt", "ConditionalOperator"):
+                    for z in cxx2.walk(y):
+                        if z.get("k") == "MemberExpr" and z.get("mid") in self.fields and z.get("mid") != M.fid and \
+                                z.get("mid") not in self.tables and "mutex" not in (self.fields[z["mid"]].get("t") or ""):
+                            M.guards.add(z["mid"])
+
+    def _entry_deref(self, v, f):
+        """v reads through an entry of the table: `it->second`, `*it`, `table.at(k)`, `table[k]` (it derived from the table)."""
+        for y in cxx2.walk(v):
+            if y.get("k") == "CXXOperatorCallExpr" and cxx2.op_name(y) in ("->", "*") and \
+                    self.flowT.mentions(cxx2.op_args(y)[0], f):
+                return True
+            if y.get("k") == "UnaryOperator" and y.get("op") == "*" and self.flowT.mentions(cir.kids(y)[0], f):
+                return True
+            if y.get("k") == "MemberExpr" and y.get("arrow") and cir.kids(y) and self.flowT.mentions(cir.kids(y)[0], f) and \
+                    y.get("t") != "<bound member function type>":
+                return True
+            fo = self._field_op(y)
+            if fo and fo[0] in self.tables and fo[1] in ("at", "[]"):
+                return True
+        return False
+
+    # -- obligations
+    def is_root(self, f):
+        return f.kind == "function" or getattr(f, "access", None) == "public" or not self.callers[id(f)]
+
+    def waived(self, M, site):
+        return site.kind == "insert" and M.exact is True and M.positive_only
+
+    def summary(self, M, f, fresh, stack=()):
+        key = (M.fid, id(f), fresh)
+        if key in self._summ:
+            return self._summ[key]
+        if id(f) in stack:
+            raise AnalysisError(f"R-DERIVED: recursive functions on the path that changes the table ({f.qual})")
+        rule = _Coherence(self, M, f, fresh, stack + (id(f),))
+        cxx2.explore(rule, self.tu, f.node)
+        self._summ[key] = frozenset(rule.exits)
+        return self._summ[key]
+
+    def obligations(self, M):
+        """{site idx: [root functions that can return with the member stale after that change of the table]} and the
+        set of sites that were reached."""
+        self._summ = {}
+        writes = self._closure(lambda f: id(f) in self.ev_fn.get(M.fid, {}))
+        self._writesM = writes
+        stale, reached, keyed_only = {}, set(), set()
+        for f in self.fns:
+            if self.special(f) or not self.mut[id(f)] or not self.is_root(f):
+                continue
+            for pending, fresh, inv, filled, seen, konly in self.summary(M, f, False):
+                reached |= set(seen)
+                keyed_only |= set(konly)
+                for i in pending:
+                    stale.setdefault(i, [])
+                    if f not in stale[i]:
+                        stale[i].append(f)
+        return stale, reached, keyed_only
+
+
+def g_is_unknown(D, call):
+    """the callee of `call` is not one of the analysed functions (what it does with a member it is given is not seen)"""
+    if call.get("k") == "CXXConstructExpr":
+        return True
+    return D.callee(call) is None and cir.callee(call) not in ("move", "forward", "as_const", "addressof")
+
+
+class _Coherence(paths.Rule):
+    """One function, one cache member.  State: (changes of the table after which the member may still hold older answers,
+    member known empty, keys removed from the member since it was last filled, emptied in this function?, filled?, sites
+    passed, sites where only a keyed removal was tried)."""
+
+    def __init__(self, D, M, f, fresh, stack):
+        self.D, self.M, self.f, self.fresh, self.stack = D, M, f, fresh, stack
+        self.exits = set()
+
+    def initial(self, fn):
+        return (frozenset(), self.fresh, frozenset(), False, False, frozenset(), frozenset())
+
+    def _event(self, st, node):
+        pending, fresh, prekeys, inv, filled, seen, konly = st
+        e = self.D.ev.get(id(node))
+        if e is None or e[0] != self.M.fid:
+            return None
+        if e[1] == "inv":
+            return (frozenset(), True, frozenset(), True, filled, seen, konly)
+        if e[1] == "invk":
+            k = e[2]
+            ik = self.D._iter_key(self.f, k, {self.M.fid}) if k is not None else None
+            kt = keytext(self.f.node, ik if ik is not None else k) if k is not None else None
+            if self.M.exact and kt is not None:
+                pending = frozenset(i for i in pending if not (self.D.sites[i].owner is self.f and self.D.sites[i].key == kt))
+                return (pending, fresh, prekeys | {kt}, inv, filled, seen, konly)
+            return (pending, fresh, (prekeys | {kt}) if kt is not None else prekeys, inv, filled, seen, konly | pending)
+        return (pending, False, frozenset(), inv, True, seen, konly)
+
+    def call(self, st, node, name, ctx):
+        D, M = self.D, self.M
+        pending, fresh, prekeys, inv, filled, seen, konly = st
+        site = D.site_by_node.get(id(node))
+        if site is not None:
+            seen = seen | {site.idx}
+            if D.waived(M, site) or fresh:
+                return (pending, fresh, prekeys, inv, filled, seen, konly)
+            if site.owner is self.f and site.key is not None and site.key in prekeys:
+                if M.exact:
+                    return (pending, fresh, prekeys, inv, filled, seen, konly)
+                konly = konly | {site.idx}
+            return (pending | {site.idx}, fresh, prekeys, inv, filled, seen, konly)
+        ev = self._event(st, node)
+        if ev is not None:
+            return ev
+        g = D.callee(node)
+        if g is not None and id(g) in D.mut and g is not self.f and (D.mut[id(g)] or D._writesM[id(g)]):
+            out = []
+            for p2, fresh2, inv2, filled2, seen2, konly2 in D.summary(M, g, fresh, self.stack):
+                if D.is_root(g):
+                    p2 = frozenset()
+                out.append((p2 if inv2 else (pending | p2), fresh2, frozenset() if (inv2 or filled2) else prekeys,
+                            inv or inv2, filled or filled2, seen | seen2, konly | konly2))
+            return out
+        return st
+
+    def assign(self, st, node, ctx):
+        ev = self._event(st, node)
+        return ev if ev is not None else st
+
+    def ret(self, st, node, ctx):
+        self.exits.add(st[:2] + st[3:])
+
+    def fallthrough(self, st, ctx):
+        self.exits.add(st[:2] + st[3:])
+
+
+def _derived_report(res, D, tname, rule="R-DERIVED"):
+    """Census of the members and the verdict for every (change of the table, cache member) pair.  Returns the census."""
+    census = {}
+    for fid, M in D.members.items():
+        row = {"role": M.role, "type": M.type[:80]}
+        if M.fills:
+            row["filled_from_lookups_in"] = sorted({f.qual for f, _, _ in M.fills})
+            row["fill_kinds"] = sorted({h for _, _, h in M.fills})
+        if M.consult:
+            row["read_back_in"] = sorted({f"{g.qual} ({how})" for g, how in M.consult})
+        if M.role == "cache":
+            row["exact_key"], row["positive_only"] = M.exact, M.positive_only
+        census[M.name] = row
+    for fid, M in D.members.items():
+        if M.role != "cache":
+            continue
+        stale, reached, keyed_only = D.obligations(M)
+        per = {}
+        for s in D.sites:
+            if D.waived(M, s):
+                continue
+            base = f"{s.owner.qual}:{tname(s.fid)}.{s.op}"
+            per[base] = per.get(base, 0) + 1
+        n = {}
+        for s in D.sites:
+            base = f"{s.owner.qual}:{tname(s.fid)}.{s.op}"
+            n[base] = n.get(base, 0) + 1
+            construct = (base if per.get(base, 0) <= 1 else f"{base}#{n[base]}") + f" invalidates {M.name}"
+            if D.waived(M, s):
+                res.ok(rule, construct, {"note": "insertion cannot change an exact-key cache of found entries"})
+                continue
+            if s.idx not in stale:
+                if s.idx not in reached:
+                    raise AnalysisError(f"{rule}: {construct}: the change of the table is not reached from any entry point")
+                res.ok(rule, construct, {"line": s.node.get("line")})
+                continue
+            roots = stale[s.idx]
+            # an invalidation the rule cannot read: the member escapes, or a member that guards the read-back is written
+            unreadable = list(M.escapes)
+            for r in roots:
+                for gfid in M.guards:
+                    if any(id(h) in D.ev_fn.get(gfid, {}) for h in D.fns if h is r or _reaches(D, r, h)):
+                        unreadable.append((r, None))
+            if not M.unchecked_reads and any(h == "returned" for _, h in M.consult):
+                raise AnalysisError(f"{rule}: {construct}: cannot decide -- `{M.name}` is not emptied after the change, but "
+                                    f"every place that hands out what it holds does so under a test of the table (it may "
+                                    f"be re-validated on read)")
+            if unreadable:
+                raise AnalysisError(f"{rule}: {construct}: cannot decide -- `{M.name}` is not emptied after the change, but "
+                                    f"it is passed to code that is not followed or a member that guards its read-back "
+                                    f"({sorted(D.fname(g) for g in M.guards)}) is written")
+            why = []
+            if not M.exact:
+                why.append("lookups that fill it use other keys than the one it is stored under (prefix / scan / "
+                           "fall-through), so its entries depend on other names of the table")
+            if not M.positive_only:
+                why.append("results for names that were not found are stored too")
+            extra = ""
+            if s.idx in keyed_only and M.exact is None:
+                raise AnalysisError(f"{rule}: {construct}: cannot decide -- only one key is removed from `{M.name}`, whose "
+                                    f"entries are filled under the key of the lookup, but the filling function is called "
+                                    f"under other lookups of the table (or calls functions that make some)")
+            if s.idx in keyed_only:
+                extra = " (removing only one key from it is not enough: " + why[0] + ")" if why else ""
+            res.bad(rule, construct, s.owner.file or D.tu, s.node.get("line"),
+                    f"`{tname(s.fid)}.{s.op}(...)` changes the table but {', '.join(r.qual for r in roots)} can return without "
+                    f"emptying `{M.name}`, which caches lookups of `{tname(s.fid)}` (filled in "
+                    f"{', '.join(sorted({f.qual for f, _, _ in M.fills}))}; read back in "
+                    f"{', '.join(sorted({g.qual for g, _ in M.consult}))}): a name looked up before this "
+                    f"{'insertion' if s.kind == 'insert' else 'removal'} keeps its old answer{extra}; {'; '.join(why)}")
+    return census
+
+
+def _reaches(D, a, b):
+    seen, todo = set(), [a]
+    while todo:
+        f = todo.pop()
+        if id(f) in seen:
+            continue
+        seen.add(id(f))
+        if f is b:
+            return True
+        todo.extend(g for _, g in D.calls[id(f)])
+    return False
+
+
+# a fixed miniature class (built as IR, independent of /repo) with a memo of its table that one mutator forgets: the rule
+# must classify the memo and report exactly that mutator on every run, so it can never pass because it matches nothing
+
+def _probe():
+    ids = iter(range(1, 10 ** 6))
+
+    def N(k, *kids, **a):
+        d = {"k": k, "line": 0}
+        d.update(a)
+        if kids:
+            d["i"] = list(kids)
+        return d
+
+    def decl(k, name, t, *kids):
+        return N(k, *kids, id=f"p{next(ids)}", n=name, t=t)
+
+    def ref(d):
+        return N("DeclRefExpr", t=d["t"], ref={"id": d["id"], "k": d["k"], "n": d["n"], "t": d["t"]})
+
+    def fld(d):
+        return N("MemberExpr", N("CXXThisExpr", t="P *"), n=d["n"], mid=d["id"], arrow=True, t=d["t"])
+
+    def mcall(obj, meth, *args, t="int"):
+        return N("CXXMemberCallExpr", N("MemberExpr", obj, n=meth, mid=f"m:{meth}", arrow=False,
+                                        t="<bound member function type>"), *args, t=t)
+
+    def var(name, t, init):
+        d = decl("VarDecl", name, t, init)
+        d["init"] = "c"
+        return d
+
+    def ne(a, b, op="!="):
+        return N("BinaryOperator", a, b, op=op, t="bool")
+
+    def ret(e):
+        return N("ReturnStmt", e)
+
+    def block(*s):
+        return N("CompoundStmt", *s)
+
+    def second(it):
+        return N("MemberExpr", ref(it), n="second", mid="m:second", arrow=True, t="Owner *")
+
+    def method(name, t, params, body, access="public"):
+        node = decl("CXXMethodDecl", name, t, *params, body)
+        node["file"] = "<probe>"
+        f = Fn(name, f"P::{name}", node, "method", None, access, internal=(access != "public"), file="<probe>")
+        return f
+    MAP = "std::unordered_map<std::string, Owner *>"
+    tbl = decl("FieldDecl", "tbl_", "std::unordered_map<std::string, Owner>")
+    memo = decl("FieldDecl", "memo_", MAP)
+    dflt = decl("FieldDecl", "dflt_", "Owner")
+    hits = decl("FieldDecl", "hits_", "int")
+    IT = MAP + "::iterator"
+    # Owner* Find(const std::string& key)
+    k1 = decl("ParmVarDecl", "key", "const std::string &")
+    hit = var("hit", IT, mcall(fld(memo), "find", ref(k1), t=IT))
+    it = var("it", IT, mcall(fld(tbl), "find", ref(k1), t=IT))
+    find = method("Find", "Owner *(const std::string &)", [k1], block(
+        N("DeclStmt", hit),
+        N("IfStmt", ne(ref(hit), mcall(fld(memo), "end", t=IT)), block(ret(second(hit)))),
+        N("UnaryOperator", fld(hits), op="++", t="int"),
+        N("DeclStmt", it),
+        N("IfStmt", ne(ref(it), mcall(fld(tbl), "end", t=IT)), block(
+            mcall(fld(memo), "emplace", ref(k1), second(it), t="std::pair<iterator, bool>"),
+            ret(second(it)))),
+        mcall(fld(memo), "emplace", ref(k1), N("UnaryOperator", fld(dflt), op="&", t="Owner *"), t="std::pair<iterator, bool>"),
+        ret(N("UnaryOperator", fld(dflt), op="&", t="Owner *"))))
+    # bool Add(const std::string& key): forgets the memo
+    k2 = decl("ParmVarDecl", "key", "const std::string &")
+    add = method("Add", "bool (const std::string &)", [k2], block(
+        N("IfStmt", ne(mcall(fld(tbl), "count", ref(k2), t="size_t"), N("IntegerLiteral", v="0", t="int")),
+          block(ret(N("CXXBoolLiteralExpr", v=False, t="bool")))),
+        mcall(fld(tbl), "emplace", ref(k2), N("IntegerLiteral", v="0", t="int"), t="std::pair<iterator, bool>"),
+        ret(N("CXXBoolLiteralExpr", v=True, t="bool"))))
+    # bool Del(const std::string& key): empties the memo through a private helper
+    k3 = decl("ParmVarDecl", "key", "const std::string &")
+    it3 = var("it", IT, mcall(fld(tbl), "find", ref(k3), t=IT))
+    forget = method("Forget", "void ()", [], block(mcall(fld(memo), "clear", t="void")), access="private")
+    dele = method("Del", "bool (const std::string &)", [k3], block(
+        N("DeclStmt", it3),
+        N("IfStmt", ne(ref(it3), mcall(fld(tbl), "end", t=IT), op="=="), block(ret(N("CXXBoolLiteralExpr", v=False, t="bool")))),
+        mcall(fld(tbl), "erase", ref(it3), t=IT),
+        N("CXXMemberCallExpr", N("MemberExpr", N("CXXThisExpr", t="P *"), n="Forget", mid=forget.node["id"], arrow=True,
+                                 t="<bound member function type>"), t="void"),
+        ret(N("CXXBoolLiteralExpr", v=True, t="bool"))))
+    # int Hits() const: a counter that is read back but not a cache
+    hitsfn = method("Hits", "int () const", [], block(ret(fld(hits))))
+    fns = [find, add, dele, forget, hitsfn]
+    by = {f.node["id"]: f for f in fns}
+
+    def callee(x):
+        if x.get("k") == "CXXMemberCallExpr":
+            m = cir.strip(cir.kids(x)[0])
+            return by.get(m.get("mid")) if m is not None else None
+        return None
+    fields = {d["id"]: d for d in (tbl, memo, dflt, hits)}
+    return Derived("P", fields, {tbl["id"]}, fns, callee, lambda f: False, tu="<probe>"), fields
+
+
+class _Collect:
+    """stands in for the Result while the probe is judged"""
+
+    def __init__(self):
+        self.oks, self.bads = [], []
+
+    def ok(self, rule, construct, sample=None):
+        self.oks.append(construct)
+
+    def bad(self, rule, construct, file, line, msg, **kw):
+        self.bads.append(construct)
+
+
+def check_derived(res, W):
+    res.rule("R-DERIVED", "every data member that stores results of lookups of the mount table and hands them out again is "
+             "emptied (or, for an exact-key cache, has the affected key removed) on every path of every function that "
+             "inserts into or erases from the table", floor=3)
+    # 1. the probe: memo_ is a cache, Add forgets it, Del (through a helper) does not, hits_ / dflt_ are not caches
+    P, pf = _probe()
+    got = _Collect()
+    pc = _derived_report(got, P, lambda fid: pf[fid]["n"])
+    want_roles = {"memo_": "cache", "dflt_": "read-not-derived", "hits_": "independent"}
+    roles = {k: v["role"] for k, v in pc.items()}
+    if roles != want_roles or got.bads != ["P::Add:tbl_.emplace invalidates memo_"] or \
+            got.oks != ["P::Del:tbl_.erase invalidates memo_"] or not pc["memo_"]["exact_key"] or pc["memo_"]["positive_only"]:
+        raise AnalysisError(f"R-DERIVED self-probe failed: roles={roles} bad={got.bads} ok={got.oks} memo={pc.get('memo_')}")
+    res.ok("R-DERIVED", "probe:memo-forgotten-by-one-mutator", {"roles": roles, "reported": got.bads, "accepted": got.oks})
+    # 2. the real class
+    tables = set(W.tables)
+    D = Derived(VFSCLS, W.vfs.fields, tables, W.fns, W.callee,
+                lambda f: f.kind == "method" and f.node.get("k") in ("CXXConstructorDecl", "CXXDestructorDecl"))
+    census = _derived_report(res, D, W.tname)
+    for name, row in sorted(census.items()):
+        res.ok("R-DERIVED", f"{VFSCLS}::{name}:role", {"role": row["role"]})
+    res.extra["derived_state"] = {"table": sorted(W.tname(t) for t in tables), "members": census,
+                                  "table_changes": [f"{s.owner.qual}:{W.tname(s.fid)}.{s.op}" for s in D.sites]}
+    res.count("members_classified", len(census))
+
+
+# ------------------------------------------------------------------------------------- exact name first (R-DELEXACT)
+
+class _Frame:
+    def __init__(self, fn, binding, nonnull, origin=None, site=None):
+        self.fn, self.binding, self.nonnull = fn, binding, nonnull
+        self.origin = origin or {}      # parameter id -> how the entry point spelled the value (for messages)
+        self.site = site                # the call in the entry point through which this frame was reached
+
+
+class ExactFirst:
+    """Abstract interpretation of a delete entry point over call frames (helpers, wrappers and the class methods are
+    entered with their arguments classified), tracking what is known about the caller's exact (reduced) name.
+
+    key class of an expression, relative to the entry point's name parameter:
+        "exact"  the parameter itself, a path-class object built from it by a one-argument (normalising) constructor, the
+                 string accessors of such an object, never-reassigned locals and parameters of entered functions bound to these;
+        "other"  anything else computed from it (StripPath, Lower, helper functions, string edits) -- and any key that does
+                 not come from the name at all.
+    state: know  "none" | "absent" | "present" | "done" (the exact entry was erased) -- learnt from the outcome of tests
+                 `table.contains/count/find(exact key)` (directly, through a bool / iterator local, or through the value an
+                 entered function returns), wherever they are written;
+           won   some entry was erased on this path;  lost  a test that involves such a value could not be interpreted.
+    events: an erase from the table with an exact key sets know = "done"; an erase with an "other" key is allowed only where
+    know == "absent"."""
+
+    def __init__(self, W, keyinfo, consts, tables):
+        self.W, self.tables = W, set(tables)
+        self.accessors = set(keyinfo["string_accessors"])
+        self.constval = {v[0]: v[1] for v in consts.values()}
+        self.P = Prov(W, keyinfo)
+        self.reports, self.lost_reports = [], []
+        self.events = {"exact": [], "other": []}
+        self.memo = {}
+        # functions from which a table access is reachable
+        touch = {id(f): any((ta := table_access(W, x)) and ta[0] in self.tables for x in cxx2.walk(f.node)) for f in W.fns}
+        changed = True
+        while changed:
+            changed = False
+            for f in W.fns:
+                if not touch[id(f)] and any(W.callee(x) is not None and touch.get(id(W.callee(x)))
+                                            for x in cxx2.walk(f.node)):
+                    touch[id(f)] = True
+                    changed = True
+        self.touch = touch
+
+    # -- classification of key expressions
+    def cls(self, e, fr, depth=0):
+        e = stable_expand(fr.fn.node, e)
+        if e is None or depth > 12:
+            return None
+        k = e.get("k")
+        if k == "DeclRefExpr":
+            r = e.get("ref") or {}
+            if r.get("k") == "ParmVarDecl":
+                return fr.binding.get(r.get("id"))
+            if r.get("k") == "VarDecl":          # a local that is reassigned somewhere: whatever it holds is not the exact name
+                return "other" if self._derived_local(r.get("id"), fr) else None
+            return None
+        if k in ("CXXConstructExpr", "CXXTemporaryObjectExpr"):
+            a = cxx2.real_args(e)
+            sub = [self.cls(x, fr, depth + 1) for x in a]
+            if self.P.is_keycls(e.get("t")) and len(a) == 1:
+                return sub[0]
+            return "other" if any(sub) else None
+        if k == "CXXMemberCallExpr":
+            r = cxx2.receiver(e)
+            obj = r[0] if r else None
+            ot = (cxx2.skip(obj) or {}).get("t") or "" if obj is not None else ""
+            if obj is not None and self.P.is_keycls(ot):
+                c = self.cls(obj, fr, depth + 1)
+                return c if r[2] in self.accessors else ("other" if c else None)
+            if obj is not None and r[2] in ("c_str", "data") and not cxx2.real_args(e)[1:]:
+                return self.cls(obj, fr, depth + 1)
+        sub = [self.cls(x, fr, depth + 1) for x in cir.kids(e) if x is not None and x.get("k") != "CXXDefaultArgExpr"]
+        return "other" if any(sub) else None
+
+    def _derived_local(self, vid, fr):
+        for x in cxx2.walk(fr.fn.node):
+            if x.get("k") == "VarDecl" and x.get("id") == vid:
+                return any(y.get("k") == "DeclRefExpr" and fr.binding.get((y.get("ref") or {}).get("id"))
+                           for y in cxx2.walk(x))
+        return False
+
+    def nonnull_arg(self, e, st, fr):
+        e = cxx2.skip(e)
+        if e is None:
+            return False
+        if e.get("k") == "CXXMemberCallExpr" and (cxx2.receiver(e) or (None, None, None))[2] in ("c_str", "data"):
+            return True
+        if e.get("k") == "StringLiteral":
+            return True
+        return e.get("k") == "DeclRefExpr" and (e.get("ref") or {}).get("id") in st[5]
+
+    # -- frames
+    def enter(self, fn, binding, nonnull, st_in, stack, origin=None, site=None):
+        """[(state at exit, abstract return value)] of fn entered with the given parameter classes."""
+        if id(fn) in stack:
+            raise AnalysisError(f"R-DELEXACT: recursion through {fn.qual}")
+        if len(stack) > 8:
+            raise AnalysisError(f"R-DELEXACT: call chain deeper than 8 below the delete entry point ({fn.qual})")
+        key = (id(fn), tuple(sorted(binding.items())), frozenset(nonnull), st_in[:3])
+        if key not in self.memo:
+            fr = _Frame(fn, binding, nonnull, origin, site)
+            rule = _ExactRule(self, fr, (st_in[0], st_in[1], st_in[2], frozenset(), frozenset(), frozenset(nonnull)),
+                              stack + (id(fn),))
+            cxx2.explore(rule, TU, fn.node)
+            self.memo[key] = frozenset(rule.exits)
+        return self.memo[key]
+
+
+def _neg(v):
+    if v is None:
+        return None
+    if v[0] == "const":
+        return ("const", not v[1])
+    if v[0] == "present":
+        return ("present", v[1], not v[2])
+    return None
+
+
+class _ExactRule(paths.Rule):
+    # state: (know, won, lost, vals {(var id, value)}, pend {(id(call node), value)}, nonnull {var id})
+    # values: ("const", truthy) | ("present", key class, polarity) | ("iter", key class)
+    def __init__(self, A, fr, st0, stack):
+        self.A, self.fr, self.st0, self.stack = A, fr, st0, stack
+        self.exits = set()
+
+    def initial(self, fn):
+        return self.st0
+
+    # -- abstract values
+    def val(self, e, st):
+        core, neg = cxx2.cond_core(e)
+        v = self._val(core, st)
+        return _neg(v) if neg else v
+
+    def _presence(self, e, st):
+        """("present", class, pol) for table.contains(k) / count(k) / find(k) != end() / it != end()."""
+        A, W = self.A, self.A.W
+        if e.get("k") == "CXXMemberCallExpr":
+            ta = table_access(W, e)
+            if ta and ta[0] in A.tables and ta[1] in ("contains", "count") and ta[2] is not None:
+                return ("present", A.cls(ta[2], self.fr) or "other", True)
+        if e.get("k") in ("CXXOperatorCallExpr", "BinaryOperator"):
+            op = cxx2.op_name(e) if e.get("k") == "CXXOperatorCallExpr" else e.get("op")
+            if op in ("==", "!="):
+                sides = cxx2.op_args(e) if e.get("k") == "CXXOperatorCallExpr" else cir.kids(e)
+                kinds = []
+                for y in sides:
+                    y = cxx2.skip(y)
+                    ta = table_access(W, y) if y is not None and y.get("k") == "CXXMemberCallExpr" else None
+                    if ta and ta[0] in A.tables and ta[1] in ("end", "cend"):
+                        kinds.append(("end", None))
+                    elif ta and ta[0] in A.tables and ta[1] == "find" and ta[2] is not None:
+                        kinds.append(("find", A.cls(ta[2], self.fr) or "other"))
+                    elif y is not None and y.get("k") == "DeclRefExpr":
+                        v = dict(st[3]).get((y.get("ref") or {}).get("id"))
+                        kinds.append(("find", v[1]) if v and v[0] == "iter" else (None, None))
+                    else:
+                        kinds.append((None, None))
+                if sorted(k[0] or "" for k in kinds) == ["end", "find"]:
+                    c = [k[1] for k in kinds if k[0] == "find"][0]
+                    return ("present", c, op == "!=")
+        return None
+
+    def _val(self, e, st):
+        e = cxx2.skip(e)
+        if e is None:
+            return None
+        k = e.get("k")
+        if k == "IntegerLiteral":
+            return ("const", str(e.get("v")) != "0")
+        if k == "CXXBoolLiteralExpr":
+            return ("const", bool(e.get("v")))
+        if k == "UnaryOperator" and e.get("op") == "-":
+            return self._val(cir.kids(e)[0], st)
+        if k == "DeclRefExpr":
+            r = e.get("ref") or {}
+            if r.get("k") == "EnumConstantDecl":
+                v = self.A.constval.get(r.get("id"))
+                return ("const", v != 0) if v is not None else None
+            v = dict(st[3]).get(r.get("id"))
+            return v if v and v[0] != "iter" else None
+        p = self._presence(e, st)
+        if p is not None:
+            return p
+        if k in ("CallExpr", "CXXMemberCallExpr"):
+            return dict(st[4]).get(id(e))
+        if k in ("BinaryOperator", "CXXOperatorCallExpr"):
+            op = cxx2.op_name(e) if k == "CXXOperatorCallExpr" else e.get("op")
+            if op in ("==", "!="):
+                a, b = (cxx2.op_args(e) if k == "CXXOperatorCallExpr" else cir.kids(e))[:2]
+                va, vb = self.val(a, st), self.val(b, st)
+                for x, y in ((va, vb), (vb, va)):
+                    if x is not None and y is not None and y[0] == "const" and not y[1]:
+                        r = _neg(x)                   # x == 0 / false / kSuccess  <=>  x is not truthy
+                        return r if op == "==" else _neg(r)
+            return None
+        if k == "ConditionalOperator":
+            c = cir.kids(e)
+            v = self.val(c[0], st)
+            if v is not None and v[0] == "const":
+                return self.val(c[1] if v[1] else c[2], st)
+        return None
+
+    def _mentions_value(self, e, st):
+        """the condition tests a value the state tracks (a status / presence local, the result of an entered function, the
+        table itself); reading *through* an iterator (`it->second...`) is not a test of the lookup"""
+        ids = {v[0] for v in st[3]}
+        calls = {c[0] for c in st[4]}
+        stack = [e]
+        while stack:
+            x = stack.pop()
+            if x is None:
+                continue
+            k = x.get("k")
+            if k == "LambdaExpr":
+                continue
+            if k == "CXXOperatorCallExpr" and cxx2.op_name(x) in ("->", "*"):
+                continue
+            if k == "UnaryOperator" and x.get("op") == "*":
+                continue
+            if k == "MemberExpr" and x.get("arrow"):
+                continue
+            if k == "DeclRefExpr" and (x.get("ref") or {}).get("id") in ids:
+                return True
+            if id(x) in calls:
+                return True
+            ta = table_access(self.A.W, x) if k == "CXXMemberCallExpr" else None
+            if ta and ta[0] in self.A.tables:
+                return True
+            stack.extend(cir.kids(x))
+        return False
+
+    @staticmethod
+    def _set(pairs, key, v):
+        out = frozenset(p for p in pairs if p[0] != key)
+        return out | {(key, v)} if v is not None else out
+
+    # -- transfer
+    def assign(self, st, node, ctx):
+        know, won, lost, vals, pend, nn = st
+        if node.get("k") == "VarDecl":
+            init = [c for c in cir.kids(node) if c is not None]
+            e = cxx2.skip(init[-1]) if init else None
+            v = None
+            if e is not None:
+                ta = table_access(self.A.W, e) if e.get("k") == "CXXMemberCallExpr" else None
+                if ta and ta[0] in self.A.tables and ta[1] == "find" and ta[2] is not None:
+                    v = ("iter", self.A.cls(ta[2], self.fr) or "other")
+                else:
+                    v = self.val(e, st)
+            return (know, won, lost, self._set(vals, node.get("id"), v), pend, nn - {node.get("id")})
+        ap = cxx2.assignment_parts(node)
+        if ap is not None:
+            t = cxx2.skip(ap[0])
+            if t is not None and t.get("k") == "DeclRefExpr":
+                vid = (t.get("ref") or {}).get("id")
+                v = self.val(ap[1], st) if ap[2] == "=" else None
+                return (know, won, lost, self._set(vals, vid, v), pend, nn - {vid})
+        return st
+
+    def branch(self, st, cond, taken, ctx):
+        know, won, lost, vals, pend, nn = st
+        v = self.val(cond, st)
+        if v is not None and v[0] == "const":
+            return st if v[1] == taken else None
+        if v is not None and v[0] == "present":
+            if v[1] == "exact":
+                here = (v[2] == taken)
+                if know == "done" and here:
+                    return None                       # the entry that was erased cannot be found again
+                know = "present" if here else ("absent" if know != "done" else "done")
+            return (know, won, lost, vals, pend, nn)
+        # null tests of pointers
+        core, neg = cxx2.cond_core(cond)
+        core = cxx2.skip(core)
+        var, isnull = None, None
+        if core is not None and core.get("k") == "DeclRefExpr" and "*" in (core.get("t") or ""):
+            var, isnull = (core.get("ref") or {}).get("id"), False
+        elif core is not None and core.get("k") == "BinaryOperator" and core.get("op") in ("==", "!="):
+            a, b = (cxx2.skip(x) for x in cir.kids(core))
+            for x, y in ((a, b), (b, a)):
+                if x is not None and y is not None and x.get("k") == "DeclRefExpr" and \
+                        (y.get("k") in ("CXXNullPtrLiteralExpr", "GNUNullExpr") or cxx2.is_zero_literal(y)) and \
+                        "*" in (x.get("t") or ""):
+                    var, isnull = (x.get("ref") or {}).get("id"), core.get("op") == "=="
+        if var is not None:
+            truth = taken != neg                      # truth of the core condition on this edge
+            null_here = (isnull == truth)
+            if var in nn and null_here:
+                return None
+            if not null_here:
+                nn = nn | {var}
+            return (know, won, lost, vals, pend, nn)
+        if self._mentions_value(cond, st):
+            lost = True
+        return (know, won, lost, vals, pend, nn)
+
+    def call(self, st, node, name, ctx):
+        A, W = self.A, self.A.W
+        know, won, lost, vals, pend, nn = st
+        ta = table_access(W, node)
+        if ta is not None and ta[0] in A.tables:
+            t, op, key = ta
+            if op in ("erase", "extract") and key is not None:
+                src = iterator_source(W, self.fr.fn, key)
+                if src == "unknown":
+                    raise AnalysisError(f"R-DELEXACT: {self.fr.fn.qual}: erase through an iterator whose origin is not a find()")
+                kexpr = table_access(W, src)[2] if src is not None else key
+                c = A.cls(kexpr, self.fr) or "other"
+                site = self.fr.site or node
+                rec = {"fn": self.fr.fn.qual, "line": site.get("line"), "file": self.fr.fn.file,
+                       "key": self._origin(kexpr), "know": know, "erase_line": node.get("line")}
+                if c == "exact":
+                    A.events["exact"].append(rec)
+                    return ("done", True, lost, vals, pend, nn)
+                A.events["other"].append(rec)
+                if know != "absent":
+                    (A.lost_reports if lost else A.reports).append(rec)
+                return (know, True, lost, vals, pend, nn)
+            if op in ("clear", "swap", "merge"):
+                raise AnalysisError(f"R-DELEXACT: {self.fr.fn.qual}: `{W.tname(t)}.{op}` on the delete path is not modelled")
+            return st
+        g = W.callee(node)
+        if g is None or not A.touch.get(id(g)) or cir.body(g.node) is None:
+            return st
+        args = W.call_args(node)
+        fr2b, fr2n, fr2o = {}, set(), {}
+        for p, a in zip(g.params, args):
+            if a is None or a.get("k") == "CXXDefaultArgExpr":
+                continue
+            c = A.cls(a, self.fr)
+            if c:
+                fr2b[p.get("id")] = c
+                fr2o[p.get("id")] = self._origin(a)
+            if self.A.nonnull_arg(a, st, self.fr):
+                fr2n.add(p.get("id"))
+        out = []
+        for (know2, won2, lost2), rv in A.enter(g, fr2b, fr2n, (know, won, lost), self.stack, fr2o, self.fr.site or node):
+            out.append((know2, won2, lost2, vals, self._set(pend, id(node), rv), nn))
+        return out
+
+    def _origin(self, e):
+        """the expression as the entry point wrote it (parameters of entered functions replaced by what was passed)"""
+        for x in cxx2.walk(stable_expand(self.fr.fn.node, e)):
+            if x.get("k") == "DeclRefExpr" and (x.get("ref") or {}).get("id") in self.fr.origin:
+                return self.fr.origin[x["ref"]["id"]]
+        return etext(e)
+
+    def _exit(self, st, rv):
+        self.exits.add((st[:3], rv))
+
+    def ret(self, st, node, ctx):
+        c = [x for x in cir.kids(node) if x is not None]
+        rv = self.val(c[0], st) if c else None
+        if rv is not None and rv[0] == "iter":
+            rv = None
+        self._exit(st, rv)
+
+    def fallthrough(self, st, ctx):
+        self._exit(st, None)
+
+
+def check_delete_exact(res, W, keyinfo, consts, tables):
+    res.rule("R-DELEXACT", "on every path of the delete / unmount entry points an entry stored under a key other than the "
+             "caller's exact (reduced) name is erased only where the exact name is known to be absent (its own lookup or "
+             "unmount attempt failed)", floor=2)
+    for api in ("mj_unmountVFS", "mj_deleteFileVFS"):
+        root = W.free[api]
+        names = [p for p in root.params if re.fullmatch(r"const char \*(const)?", (p.get("t") or "").strip())]
+        if len(names) != 1:
+            raise AnalysisError(f"{api}: expected exactly one `const char *` name parameter, found {len(names)}")
+        A = ExactFirst(W, keyinfo, consts, tables)
+        exits = A.enter(root, {names[0].get("id"): "exact"}, set(), ("none", False, False), ())
+        if not A.events["exact"] and not A.events["other"]:
+            raise AnalysisError(f"{api}: no erase from the mount table is reached from this entry point")
+        construct = f"{api}:exact-name-first"
+        if A.reports:
+            r = A.reports[0]
+            what = {"none": "nothing has been established about the exact name yet",
+                    "present": "the exact name is known to be present",
+                    "done": "the entry of the exact name has already been erased"}[r["know"]]
+            res.bad("R-DELEXACT", construct, root.file or TU, r["line"],
+                    f"{api} reaches the erase in {r['fn']} (line {r['erase_line']}) with the key `{r['key']}`, which is not the caller's exact "
+                    f"(reduced) name, on a path where {what}: with both names present, deleting the exact name removes the "
+                    f"other entry")
+        elif A.lost_reports:
+            r = A.lost_reports[0]
+            raise AnalysisError(f"R-DELEXACT: {construct}: cannot decide -- the erase in {r['fn']} (line {r['line']}) with "
+                                f"key `{r['key']}` follows a test of a lookup / unmount result that is not of a form read here")
+        elif not A.events["exact"]:
+            res.bad("R-DELEXACT", construct, root.file or TU, root.node.get("line"),
+                    f"{api} never erases the entry stored under the caller's exact (reduced) name")
+        else:
+            res.ok("R-DELEXACT", construct, {"exact_key_erases": len(A.events["exact"]),
+                                              "other_key_erases": sorted({e["key"] for e in A.events["other"]})})
+        if api != "mj_deleteFileVFS":
+            continue            # mj_unmountVFS:returns-status-unchanged is checked with R-DELRESULT
+        # R-DELRESULT for the delete entry point, on the same frames: whichever way the attempts and their statuses are
+        # written (early return, nested if, ?:, a status local, helpers), 0 is returned exactly on the paths that erased
+        construct = "mj_deleteFileVFS:result-derived-from-unmount"
+        succ = [st for st, rv in exits if rv is not None and rv[0] == "const" and not rv[1] and not st[1]]
+        fail = [st for st, rv in exits if rv is not None and rv[0] == "const" and rv[1] and st[1]]
+        unknown = [st for st, rv in exits if rv is None or rv[0] != "const"]
+        if succ:
+            res.bad("R-DELRESULT", construct, root.file or TU, root.node.get("line"),
+                    "success (0) is returned on a path on which no unmount attempt erased an entry"
+                    + (" although the name was found absent" if any(st[0] == "absent" for st in succ) else ""))
+        elif fail:
+            res.bad("R-DELRESULT", construct, root.file or TU, root.node.get("line"),
+                    "a failure code is returned on a path on which an unmount attempt erased the entry")
+        elif unknown:
+            raise AnalysisError(f"R-DELRESULT: {construct}: a returned value is neither a status constant nor the status of "
+                                f"an unmount attempt")
+        else:
+            res.ok("R-DELRESULT", construct, {"exits": len(exits)})
+
+
 # ------------------------------------------------------------------------------------- entry
 
 def run(res, tier):
@@ -1494,6 +2571,8 @@ def run(res, tier):
     rows = check_keynorm(res, W, keyinfo)
     consts, doc = check_add(res, W, rows)
     check_delete(res, W, consts, doc)
+    check_derived(res, W)
+    check_delete_exact(res, W, keyinfo, consts, set(W.tables))
     check_read(res, W)
     res.extra["key_class"] = keyinfo
     res.extra["tables"] = [W.tname(t) for t in W.tables]
@@ -1502,8 +2581,13 @@ def run(res, tier):
         "internal functions through all call sites incl. the template instantiations behind mj_addBufferVFS/"
         "mj_addFileVFS), class invariant of the normalising path class, all-paths rules for the add path (containment "
         "test dominates insertion; repeated-name return before any mutation), the delete path (result derived from "
-        "the erase) and the structure of the read-back path.")
-    res.not_decided = ("which entry prefix/legacy lookups select over histories; concurrent add/add (test and emplace "
+        "the erase), an abstract interpretation of the delete / unmount entry points over call frames (the legacy key is "
+        "erased only where the exact name is known absent; 0 is returned exactly where an entry was erased), a data- and "
+        "control-flow classification of every other data member (cache of table lookups or not) with the obligation that "
+        "every change of the table empties such a cache on every path, and the structure of the read-back path.")
+    res.not_decided = ("which entry prefix/legacy lookups select over histories; derived state kept outside the class "
+                       "(file-level statics, provider objects), caches re-validated on read or invalidated through a "
+                       "second member (reported as cannot-decide), counters as derived state; concurrent add/add (test and emplace "
                        "are in separate lock scopes); the write path (out of the property's operations, see "
                        "out_of_scope_accesses); byte-equality of contents beyond the copy loop's shape.")
     res.assumptions = ["std::unordered_map semantics (emplace does not overwrite, erase(iterator) removes that entry)",
@@ -1551,6 +2635,41 @@ _COPY_FOR = ("    for (size_t i = 0; i < n; i++) {\n      contents_.push_back(sr
              "      hash_ *= prime;\n    }\n")
 _COPY_WHILE = ("    size_t i = %s;\n    while (i < n) {\n      contents_.push_back(src_bytes[i]);\n      hash_ |= src_bytes[i];\n"
                "      hash_ *= prime;\n      ++i;\n    }\n")
+
+# R-DERIVED: a memo of FindMount, as small anchored edits (see /verif/seeded/C39-stale-mount-lookup-cache)
+_MEMO_DECL = [(_VH, "  std::unordered_map<std::string, ResourcePtr> mounts_;\n",
+               "  std::unordered_map<std::string, ResourcePtr> mounts_;\n"
+               "  std::unordered_map<std::string, mjResource*> mount_cache_;\n")]
+_MEMO_FIND = [(_V, "  std::lock_guard<std::mutex> lock(mutex_);\n\n  std::string str = fullpath;",
+               "  std::lock_guard<std::mutex> lock(mutex_);\n\n"
+               "  if (auto hit = mount_cache_.find(fullpath); hit != mount_cache_.end()) { return hit->second; }\n"
+               "  std::string str = fullpath;"),
+              (_V, "    if (it != mounts_.end()) { return it->second.get(); }\n\n    std::size_t n",
+               "    if (it != mounts_.end()) { return mount_cache_[fullpath] = it->second.get(); }\n\n    std::size_t n"),
+              (_V, "  return &default_mount_;\n}", "  return mount_cache_[fullpath] = &default_mount_;\n}")]
+_EMPLACE_PREFIX = "    mounts_.emplace(provider->prefix, std::move(res));\n"
+_EMPLACE_MOUNT = "  mounts_.emplace(path.Str(), std::move(res));\n"
+_ERASE_UNMOUNT = "    mounts_.erase(it);\n"
+_MEMO_BASE = _MEMO_DECL + _MEMO_FIND + [(_V, _EMPLACE_PREFIX, _EMPLACE_PREFIX + "    mount_cache_.clear();\n")]
+_FORGET_DECL = [(_VH, "  void MaybeSelfDestruct();\n", "  void MaybeSelfDestruct();\n  void ForgetLookups();\n"),
+                (_V, "void VFS::MaybeSelfDestruct() {", "void VFS::ForgetLookups() { mount_cache_.clear(); }\n\n"
+                 "void VFS::MaybeSelfDestruct() {")]
+# an exact-key cache of containment tests
+_CC_DECL = [(_VH, "  std::unordered_map<std::string, ResourcePtr> mounts_;\n",
+             "  std::unordered_map<std::string, ResourcePtr> mounts_;\n"
+             "  std::unordered_map<std::string, bool>        contains_cache_;\n")]
+_CC_LOOKUP = [(_V, "  return mounts_.contains(mujoco::user::FilePath(name).Str());\n",
+               "  const std::string key = mujoco::user::FilePath(name).Str();\n"
+               "  if (auto hit = contains_cache_.find(key); hit != contains_cache_.end()) { return hit->second; }\n"
+               "  const bool found = mounts_.contains(key);\n  contains_cache_[key] = found;\n  return found;\n")]
+_CC_BASE = _CC_DECL + _CC_LOOKUP + [(_V, _ERASE_UNMOUNT, _ERASE_UNMOUNT + "    contains_cache_.erase(path.Str());\n"),
+                                    (_V, _EMPLACE_PREFIX, _EMPLACE_PREFIX + "    contains_cache_.erase(provider->prefix);\n")]
+# R-DELEXACT: other ways to write mj_deleteFileVFS
+_DEL_HEAD = "  if (filename == nullptr) { return mujoco::user::VFS::kNotFound; }\n\n"
+_DEL_IMPL = ("  mujoco::user::VFS* impl = mujoco::user::VFS::Upcast(vfs);\n  if (impl == nullptr) {\n"
+             "    mju_error(\"mjVFS is null.\");\n    return mujoco::user::VFS::kInvalidVfs;\n  }\n"
+             "  const mujoco::user::FilePath path(filename);\n")
+_DEL_FN = "int mj_deleteFileVFS(mjVFS* vfs, const char* filename) {\n"
 SELFTEST = {
     "lookup-with-raw-key": ([(_V, "return mounts_.contains(key);", "return mounts_.contains(filename);")],
                             "R-KEYNORM construct=VFS::ContainsFile(const char *, const char *):mounts_.contains"),
@@ -1631,6 +2750,62 @@ SELFTEST = {
     "copy-loop-while-skips-byte": ([(_V, _COPY_FOR, _COPY_WHILE % "1")], "copies-n-bytes"),
     "control-key-in-local": ([(_V, "    " + _TEST + "\n  }", "    " + _TEST + "\n  }\n  const std::string& key = path.Str();"),
                               (_V, "mounts_.emplace(path.Str(), std::move(res));", "mounts_.emplace(key, std::move(res));")], None),
+    "memo-not-invalidated-on-mount": (_MEMO_BASE + [(_V, _ERASE_UNMOUNT, _ERASE_UNMOUNT + "    mount_cache_.clear();\n")],
+                                      f"R-DERIVED construct={_MOUNT}:mounts_.emplace invalidates mount_cache_"),
+    "memo-only-one-key-removed-on-unmount": (_MEMO_BASE + [(_V, _EMPLACE_MOUNT, _EMPLACE_MOUNT + "  mount_cache_.clear();\n"),
+                                                          (_V, _ERASE_UNMOUNT, _ERASE_UNMOUNT + "    mount_cache_.erase(path.Str());\n")],
+                                             f"R-DERIVED construct={_UNMOUNT}:mounts_.erase invalidates mount_cache_"),
+    "memo-not-invalidated-by-implicit-mount": (_MEMO_DECL + _MEMO_FIND + [
+        (_V, _EMPLACE_MOUNT, _EMPLACE_MOUNT + "  mount_cache_.clear();\n"),
+        (_V, _ERASE_UNMOUNT, _ERASE_UNMOUNT + "    mount_cache_.clear();\n")],
+        "R-DERIVED construct=VFS::FindMount(const std::string &):mounts_.emplace invalidates mount_cache_"),
+    "control-memo-emptied-by-every-mutator": (_MEMO_BASE + [(_V, _EMPLACE_MOUNT, _EMPLACE_MOUNT + "  mount_cache_.clear();\n"),
+                                                           (_V, _ERASE_UNMOUNT, _ERASE_UNMOUNT + "    mount_cache_.clear();\n")], None),
+    "control-memo-emptied-through-helper-before-the-change": (
+        _MEMO_BASE + _FORGET_DECL + [(_V, _EMPLACE_MOUNT, "  ForgetLookups();\n" + _EMPLACE_MOUNT),
+                                     (_V, _ERASE_UNMOUNT, _ERASE_UNMOUNT + "    ForgetLookups();\n")], None),
+    "control-exact-key-cache-affected-key-removed": (_CC_BASE + [(_V, _EMPLACE_MOUNT, _EMPLACE_MOUNT +
+                                                                   "  contains_cache_.erase(path.Str());\n")], None),
+    "exact-key-cache-keeps-negative-answer-on-mount": (_CC_BASE, f"R-DERIVED construct={_MOUNT}:mounts_.emplace invalidates "
+                                                                 "contains_cache_"),
+    "delete-tries-legacy-key-first": ([(_V, _DELFILE, "  mujoco::user::FilePath path(filename);\n"
+                                        "  if (mj_unmountVFS(vfs, path.StripPath().Lower().c_str()) != 0) {\n"
+                                        "    return mj_unmountVFS(vfs, filename);\n  }\n"
+                                        "  return mujoco::user::VFS::kSuccess;\n}")],
+                                      "R-DELEXACT construct=mj_deleteFileVFS:exact-name-first"),
+    "delete-tries-legacy-key-whatever-the-exact-attempt-did": ([(_V, _DELFILE, "  mj_unmountVFS(vfs, filename);\n"
+                                                                 "  mujoco::user::FilePath path(filename);\n"
+                                                                 "  return mj_unmountVFS(vfs, path.StripPath().Lower().c_str());\n}")],
+                                                               "R-DELEXACT construct=mj_deleteFileVFS:exact-name-first"),
+    "delete-legacy-key-when-legacy-present": ([(_V, _DEL_HEAD + _DELFILE, _DEL_HEAD + _DEL_IMPL +
+                                                "  const mujoco::user::FilePath legacy = path.StripPath().Lower();\n"
+                                                "  if (impl->ContainsBuffer(legacy.c_str())) { return static_cast<int>(impl->Unmount(legacy)); }\n"
+                                                "  return static_cast<int>(impl->Unmount(path));\n}")],
+                                              "R-DELEXACT construct=mj_deleteFileVFS:exact-name-first"),
+    "control-delete-exact-presence-decides": ([(_V, _DEL_HEAD + _DELFILE, _DEL_HEAD + _DEL_IMPL +
+                                                "  if (impl->ContainsBuffer(filename)) { return static_cast<int>(impl->Unmount(path)); }\n"
+                                                "  return static_cast<int>(impl->Unmount(path.StripPath().Lower()));\n}")], None),
+    "control-delete-status-in-local": ([(_V, _DELFILE, "  int status = mj_unmountVFS(vfs, filename);\n  if (status != 0) {\n"
+                                         "    mujoco::user::FilePath path(filename);\n"
+                                         "    status = mj_unmountVFS(vfs, path.StripPath().Lower().c_str());\n  }\n"
+                                         "  return status;\n}")], None),
+    "control-delete-conditional-expression": ([(_V, _DELFILE, "  return mj_unmountVFS(vfs, filename) == 0\n             ? 0\n"
+                                                "             : mj_unmountVFS(vfs, mujoco::user::FilePath(filename).StripPath().Lower().c_str());\n}")],
+                                              None),
+    "control-delete-through-helpers": ([(_V, _DEL_FN + _DEL_HEAD + _DELFILE,
+                                         "static std::string LegacyKey(const char* name) {\n"
+                                         "  return mujoco::user::FilePath(name).StripPath().Lower().Str();\n}\n\n"
+                                         "static int DeleteByName(mjVFS* vfs, const char* name) {\n"
+                                         "  const bool gone = mj_unmountVFS(vfs, name) == 0;\n  if (gone) { return 0; }\n"
+                                         "  return mj_unmountVFS(vfs, LegacyKey(name).c_str());\n}\n\n" + _DEL_FN + _DEL_HEAD +
+                                         "  return DeleteByName(vfs, filename);\n}")], None),
+    "helper-delete-reports-success-for-absent-name": ([(_V, _DEL_FN + _DEL_HEAD + _DELFILE,
+                                                        "static int DeleteByName(mjVFS* vfs, const char* name) {\n"
+                                                        "  if (mj_unmountVFS(vfs, name) == 0) { return 0; }\n"
+                                                        "  mujoco::user::FilePath path(name);\n"
+                                                        "  mj_unmountVFS(vfs, path.StripPath().Lower().c_str());\n  return 0;\n}\n\n" +
+                                                        _DEL_FN + _DEL_HEAD + "  return DeleteByName(vfs, filename);\n}")],
+                                                      "R-DELRESULT construct=mj_deleteFileVFS:result-derived-from-unmount"),
 }
 
 
